@@ -10,5 +10,11 @@ func smallGroups(r *vlib.Run) map[string]func() {
 	for k, f := range smallBabybear(r) {
 		m[k] = f
 	}
+	for k, f := range smallGoldilocks(r) {
+		m[k] = f
+	}
+	for k, f := range smallBls12377fr(r) {
+		m[k] = f
+	}
 	return m
 }
